@@ -1,6 +1,7 @@
 //! pvc-uint: checks C15, C20.  usage: pvc-uint <Cxx> --tier quick|thorough [--replay f] [--only family]
 
 pub mod c15;
+pub mod uctx;
 pub mod c20;
 
 use pvc_engine::{Run, load_replay, parse_args};
